@@ -75,14 +75,15 @@ CLAIMED = {
          "every multilinear kernel of every representation is modelled as the composition of transpose / F-reshape / matmul / dot / gather / accumulate the code performs and compared exactly with the executable "
          "sum-over-indices specification on every run. Proved for all shapes and orders: the mode-designation conventions (dims in any order, exclude_dims, one multiplicand per listed mode or per mode), dense and sparse "
          "ttv (all five sparse result branches incl. the 50% densify switch), dense ttm (plain, transposed, list), Tucker full, dense and sparse mttkrp (all three dense branches, Kruskal operand with weights), inner "
-         "products and norms, dense and sparse collapse / scale / contract. Model + specification + exact correspondence only (no theorem yet): sparse ttm, the Kruskal / Tucker / sum kernels, ttt, mttkrps, and the "
-         "cross-representation family (same array held five ways gives the same answer)",
+         "products and norms, dense and sparse collapse / scale / contract. sum-tensor expansion; and (Props/C02KT.lean) the Kruskal kernels (ttv, mttkrp with factor list or Kruskal operand, inner products with every representation, norm), the Tucker kernels (ttv, ttm plain and transposed, mttkrp, "
+         "inner products, norm, both sides of the size switches), every dispatch case of the cross-representation inner product, ttv / mttkrp / innerprod of sum tensors and their linearity. "
+         "Model + specification + exact correspondence only (no theorem yet): sparse ttm (hence the sparse-ttm side of Tucker x sparse inner products, _partial), ttt, mttkrps, most reject branches of the Kruskal / Tucker / sum kernels",
          _NOTE + "; one by-design known finding: sparse collapse hands a reducer only the stored values (differs from dense for max/min/prod/len)", "DESIGN.md 7 (C02)"),
  "C09": ("translator for the scalar formulas of cp_als.py (regenerated every run) + Lean model of the ALS sweep with solve as a service + theorems over any ordered field with lawful sqrt; one-step trace validation of the real cp_als at Float",
          "proved for all inputs: shape and rank of the result, normal form after the final arrange (columns of 2-norm one or entirely zero with weight zero, weights non-negative and descending), the Kruskal norm "
          "identity, iteration count and stop rule, the returned initial guess, option rejection; relative to the data laws of C02 (inner product and MTTKRP laws): the saved-MTTKRP inner product, residual and fit "
-         "formulas incl. the sum-tensor branch for the returned model; relative to the solve contract: normal equations and least-squares optimality of each mode update. Fit monotonicity is proved at matrix level "
-         "(_partial: the bridge from the list kernels to matrices is listed as missing). Every run replays recorded cp_als traces (dense, sparse, Tucker, sum data; all mode orders and optdims subsets for N<=3; "
+         "formulas incl. the sum-tensor branch for the returned model; relative to the solve contract: normal equations and least-squares optimality of each mode update. Fit monotonicity is proved for the list model itself "
+         "(C09_fit_monotone: from pass 1 on every pass does not increase the residual and does not decrease the fit; C09_fit_monotone_run for whole runs; a pass-0 sweep under a stated no-0/0 hypothesis on the column scales). Every run replays recorded cp_als traces (dense, sparse, Tucker, sum data; all mode orders and optdims subsets for N<=3; "
          "given / random / nvecs starts) through the Lean step and recomputes the reported quantities independently",
          _NOTE + "; np.linalg.solve enters as a service whose contract is checked on every recorded call; Float steps are compared at 1e-9 relative; reported residuals are compared on the scale of the cancelled terms", "DESIGN.md 7 (C09)"),
  "C03": ("Lean 4 cell-wise refinement theorems for models of every sparse element-wise operation (XRat = Q with nan/+-inf for division) + enumeration of all pairs of sparsity patterns against NumPy on the expanded arrays",
@@ -113,4 +114,10 @@ CLAIMED = {
          "rejections), sptenrand / sptensor.from_function (well-formed, requested count reached whenever one draw or the ten pooled draws contain enough distinct subscripts, result a function of the first ten draws) "
          "and ktensor.from_function are proved for all inputs; the harness replays recorded np.random draws through the model",
          _NOTE + "; the value function is assumed to return non-zero values (np.zeros would store explicit zeros); floor(u*extent) is exact in the model, double precision in the code", "DESIGN.md 7 (C20)"),
+ "C04": ("Lean 4 refinement of the dense and sparse __setitem__ / __getitem__ models to a mutable-array specification, lifted by induction over the operation list + step-by-step correspondence of random histories (implementation, Python oracle, Lean model, Lean spec)",
+         "the models follow the code's dispatch and helpers (get_index_variant, _set_linear, _set_subscripts with its change / delete / insert groups, growth of extents and order, _set_subtensor, tt_irenumber, subdims + tt_renumber, extract) and are proved to refine "
+         "the abstract F-ordered mutable array for the key forms marked provedAt (both classes: subscript arrays with any right-hand side incl. growth, repeats and zeros; linear integer / slice / list keys; integer+slice regions with scalar writes and region reads; "
+         "sparse additionally index lists in regions); corollaries: last write wins, frame, growth is zero-filled, well-formedness preserved, zero removes a sparse entry, dense and sparse driven by the same history agree. The theorems are named _partial because "
+         "dense index lists in regions, array / tensor right-hand sides of region writes and sparse-tensor right-hand sides are excluded from the proofs (they are exercised by the harness on every run). Two design-level known findings (dense advanced indexing with lists; sparse reads with a repeated list entry)",
+         _NOTE + "; NumPy basic / advanced indexing and assignment broadcasting are model primitives", "DESIGN.md 7 (C04)"),
 }
